@@ -55,6 +55,7 @@ pub enum V {
 
 /// hash / hash_with_dxdy / sph_coo on one position.
 pub fn check_pos(n: u32, lon: f64, lat: f64, listed_kf2: bool, part: &mut Part) -> V {
+  journal("ring::hash", || case_pos(n, lon, lat));
   let nh = ring_n_hash(n as u64);
   let (x, y) = ref_proj(lon, lat);
   let seam = listed_kf2 && on_polar_seam(lon, lat);
@@ -111,6 +112,7 @@ pub fn check_pos(n: u32, lon: f64, lat: f64, listed_kf2: bool, part: &mut Part) 
 
 /// centre, ordering, hash(centre) on one cell.
 pub fn check_cell(n: u32, h: u64, part: &mut Part) -> Option<Viol> {
+  journal("ring cell accessors", || case_cell(n, h));
   let nf = n as f64;
   let mk = |api: &str, kind: &str, expected: String, actual: String| Some(Viol { api: api.into(), kind: kind.into(), case: case_cell(n, h), expected, actual });
   let (cx, cy) = ring_center(n as u64, h);
